@@ -186,10 +186,10 @@ int main(int argc, char **argv)
 				}
 	}
 	if (!v_part || !strcmp(v_part, "positions")) {
-		LIN = malloc(40000);
+		LIN = malloc(200000);
 		static const int cpus[] = { CPU_BASE, CPU_SSE, CPU_AVX2, CPU_AVX512G2 };
 		uint64_t unit = 0;
-		for (int variant = 0; variant < (v_thorough ? 6 : 3); variant++)
+		for (int variant = 0; variant < (v_thorough ? 8 : 4); variant++)
 			for (int level = 0; level <= 3; level++)
 				for (int ci = 0; ci < 4; ci++) {
 					if (!v_mine(unit++))
@@ -197,14 +197,16 @@ int main(int argc, char **argv)
 					if (nfail > 20 || v_deadline_hit())
 						break;
 					/* variant 2 / 5: large pieces handed over in single calls (compressed straight from the caller's buffer, no internal buffering) */
-					int len = variant == 0 ? 600 : variant == 1 ? 1500 : variant == 2 ? 32000 : variant == 3 ? 3000 : variant == 4 ? 300 : 39000;
+					/* variant 3 / 7: flush points that are whole multiples of 64 KiB (and 32 KiB) apart - positions are kept in 16-bit hash indices */
+					static const int vlen[] = { 600, 1500, 32000, 171072, 3000, 300, 39000, 140000 }, vcin[] = { 97, 97, 9000, 65536, 300, 97, 13000, 32768 };
+					int len = vlen[variant];
 					/* content with repeats across every possible flush point: period 61 text */
 					for (int i = 0; i < len; i++)
 						LIN[i] = (uint8_t)("flush point test data, quite repetitive. 0123456789 abcdefghi "[i % 61]);
 					char nm[64];
 					for (SE_CONTIG = 0; SE_CONTIG < 2; SE_CONTIG++) {
 						snprintf(nm, sizeof nm, "period61:%d%s", len, SE_CONTIG ? ":contiguous" : ":fresh-chunks");
-						sweep_positions(nm, len, level, variant % 2 ? IGZIP_GZIP : IGZIP_DEFLATE, cpus[ci], variant == 2 ? 9000 : variant == 5 ? 13000 : variant == 3 ? 300 : 97);
+						sweep_positions(nm, len, level, variant % 2 ? IGZIP_GZIP : IGZIP_DEFLATE, cpus[ci], vcin[variant]);
 					}
 					SE_CONTIG = 0;
 				}
